@@ -913,7 +913,16 @@ class Consumer(object):
         if self._msg_block_d:
             # We are still working through the last block of messages...
             # We have to wait until it's done, then process this response
-            self._msg_block_d.addCallback(lambda _: self._handle_fetch_response(responses))
+            def _handle_parked_response(_):
+                # This runs on the message block's deferred, not the fetch
+                # request's: route a decode failure to the fetch errback so
+                # that the fetch is retried rather than silently abandoned.
+                try:
+                    self._handle_fetch_response(responses)
+                except Exception:
+                    self._handle_fetch_error(Failure())
+
+            self._msg_block_d.addCallback(_handle_parked_response)
             return
 
         # No ongoing processing, great, let's get some started.
